@@ -7,7 +7,7 @@ theorem removeProcessor_spec (U : Universe) (s : St) (t : Ty) :
         removeProcessor U s t = (s, .ok, none)) ∨
     (∃ st p, (visit U t).find? (fun st => (Dict.get? s.procs st).isSome) = some st ∧
         Dict.get? s.procs st = some p ∧ (removeProcessor U s t).2.2 = some p ∧
-        SameTables (dropProc U s st) (removeProcessor U s t).1) := by
+        SameTables U (dropProc U s st) (removeProcessor U s t).1) := by
   unfold removeProcessor
   cases hf : (visit U t).find? (fun st => (Dict.get? s.procs st).isSome) with
   | none => left; exact ⟨rfl, rfl⟩
